@@ -134,19 +134,32 @@ def run(ctx):
 
   # ---- C13.metadata
   meta_attrs = None
+  src_ok = False
+  # names that denote the class being decorated
+  cls_names = {dec.params[1]} if len(dec.params) > 1 else set()
+  for n in walk_local(dec.node):
+    if isinstance(n, ast.Assign) and len(n.targets) == 1 and isinstance(n.targets[0], ast.Name) and isinstance(n.value, ast.Name) \
+        and n.value.id in cls_names:
+      cls_names.add(n.targets[0].id)
   for n in walk_local(dec.node):
     if isinstance(n, ast.DictComp) and isinstance(n.generators[0].iter, (ast.Tuple, ast.List)):
       meta_attrs = {e.value for e in n.generators[0].iter.elts if isinstance(e, ast.Constant)}
-      src_ok = u(n.value).replace(' ', '') == 'getattr(cls,attr)'
+      v = n.value
+      src_ok = isinstance(v, ast.Call) and u(v.func) == 'getattr' and len(v.args) == 2 and u(v.args[0]) in cls_names \
+          and u(v.args[1]) == u(n.generators[0].target) and u(n.key) == u(n.generators[0].target)
   need = {'__module__', '__name__', '__qualname__', '__doc__'}
   ctx.check(meta_attrs is not None and need <= meta_attrs and src_ok, 'C13.metadata', construct(dec),
             'the dynamic subclass copies %s from the original' % sorted(need),
             'the dynamic subclass copies only %s' % sorted(meta_attrs or ()), dec.loc(), instance='copied')
-  mkcls = [n for n in walk_local(dec.node) if isinstance(n, ast.Assign) and u(n.targets[0]) == 'decorated_class' and isinstance(n.value, ast.Call)
-           and u(n.value.func) == 'decorating_meta']
-  ok = len(mkcls) == 1 and len(mkcls[0].value.args) == 3 and u(mkcls[0].value.args[1]) == '(cls,)' and u(mkcls[0].value.args[0]) == 'cls.__name__'
+  # the metaclass built with type(<meta>)(...), and the class it is called to build
+  metas = {u(n.targets[0]) for n in walk_local(dec.node) if isinstance(n, ast.Assign) and isinstance(n.value, ast.Call)
+           and isinstance(n.value.func, ast.Call) and u(n.value.func.func) == 'type'}
+  mkcls = [n for n in walk_local(dec.node) if isinstance(n, ast.Call) and isinstance(n.func, ast.Name) and n.func.id in metas]
+  ok = len(mkcls) == 1 and len(mkcls[0].args) == 3 and isinstance(mkcls[0].args[1], ast.Tuple) and len(mkcls[0].args[1].elts) == 1 \
+      and u(mkcls[0].args[1].elts[0]) in cls_names and isinstance(mkcls[0].args[0], ast.Attribute) and mkcls[0].args[0].attr == '__name__' \
+      and u(mkcls[0].args[0].value) in cls_names
   ctx.check(ok, 'C13.metadata', construct(dec), 'the configurable class has the original as its only base and the same name',
-            'the dynamic subclass is built as `%s`' % [u(n.value) for n in mkcls], dec.loc(), instance='bases')
+            'the dynamic subclass is built as `%s`' % [u(n) for n in mkcls], dec.loc(), instance='bases')
   mcw = ctx.func('config._make_meta_call_wrapper.meta_call_wrapper')
   g2, facts2 = std_facts(prog, mcw)
   swaps = [n for n in g2.live_nodes() if n.kind == 'stmt' and isinstance(n.ast, ast.Assign) and u(n.ast.targets[0]) == mcw.params[0] and u(n.ast.value) == 'cls']
